@@ -316,3 +316,1254 @@ Proof.
     + rewrite IH. destruct (find _ (rev r)); [reflexivity|]. cbn [find]. unfold tag_of. cbn [fst snd].
       rewrite Hc, andb_true_r, mget_minsert. destruct (str_eqb k k'); reflexivity.
 Qed.
+
+(** * Order on strings (byte-wise order of BTreeMap keys) *)
+
+Lemma str_cmp_refl : forall a, str_cmp a a = Eq.
+Proof. intros a. apply str_cmp_eq. reflexivity. Qed.
+
+Lemma str_cmp_antisym : forall a b, str_cmp a b = CompOpp (str_cmp b a).
+Proof.
+  induction a as [|x xs IH]; destruct b as [|y ys]; cbn [str_cmp CompOpp]; try reflexivity.
+  rewrite (N.compare_antisym y x). destruct (N.compare y x); cbn [CompOpp]; try reflexivity. apply IH.
+Qed.
+
+Lemma str_cmp_trans : forall a b c, str_cmp a b = Lt -> str_cmp b c = Lt -> str_cmp a c = Lt.
+Proof.
+  induction a as [|x xs IH]; intros [|y ys] [|z zs]; cbn [str_cmp]; intros H1 H2; try discriminate; try reflexivity.
+  destruct (N.compare x y) eqn:Exy; try discriminate.
+  - apply N.compare_eq in Exy. subst y. destruct (N.compare x z) eqn:Exz; try discriminate; try reflexivity.
+    apply (IH ys zs); assumption.
+  - destruct (N.compare y z) eqn:Eyz; try discriminate.
+    + apply N.compare_eq in Eyz. subst z. rewrite Exy. reflexivity.
+    + apply N.compare_lt_iff in Exy. apply N.compare_lt_iff in Eyz.
+      assert (Hxz : (x < z)%N) by (apply (N.lt_trans x y z); assumption). apply N.compare_lt_iff in Hxz. rewrite Hxz. reflexivity.
+Qed.
+
+Lemma str_ltb_lt : forall a b, str_ltb a b = true <-> str_cmp a b = Lt.
+Proof. intros a b. unfold str_ltb. destruct (str_cmp a b); split; intros H; try reflexivity; discriminate. Qed.
+Lemma str_ltb_trans : forall a b c, str_ltb a b = true -> str_ltb b c = true -> str_ltb a c = true.
+Proof. intros a b c H1 H2. apply str_ltb_lt. apply str_ltb_lt in H1. apply str_ltb_lt in H2. apply (str_cmp_trans a b c); assumption. Qed.
+Lemma str_ltb_irrefl : forall a, str_ltb a a = false.
+Proof. intros a. unfold str_ltb. rewrite str_cmp_refl. reflexivity. Qed.
+Lemma str_ltb_asym : forall a b, str_ltb a b = true -> str_ltb b a = false.
+Proof.
+  intros a b H. apply str_ltb_lt in H. unfold str_ltb. rewrite str_cmp_antisym, H. reflexivity.
+Qed.
+Lemma str_cmp_gt_lt : forall a b, str_cmp a b = Gt -> str_ltb b a = true.
+Proof. intros a b H. unfold str_ltb. rewrite str_cmp_antisym, H. reflexivity. Qed.
+
+(** a proper prefix sorts first *)
+Lemma str_ltb_prefix : forall b x, x <> [] -> str_ltb b (b ++ x) = true.
+Proof.
+  intros b x Hx. apply str_ltb_lt. induction b as [|c r IH]; cbn [app str_cmp].
+  - destruct x; [contradiction | reflexivity].
+  - rewrite N.compare_refl. exact IH.
+Qed.
+
+(** * Sorted association lists *)
+
+Section SMap.
+  Context {A : Type}.
+  Fixpoint ssorted (m : list (str * A)) : Prop :=
+    match m with
+    | [] => True
+    | (k, _) :: r => (forall x, In x (map fst r) -> str_ltb k x = true) /\ ssorted r
+    end.
+
+  Lemma keys_minsert : forall k k' (v : A) m, In k (map fst (minsert k' v m)) <-> k = k' \/ In k (map fst m).
+  Proof.
+    intros k k' v m. induction m as [|[k2 v2] r IH]; cbn [minsert map fst In].
+    - intuition.
+    - destruct (str_cmp k' k2) eqn:E; cbn [map fst In].
+      + apply str_cmp_eq in E. subst k2. intuition.
+      + intuition.
+      + rewrite IH. intuition.
+  Qed.
+
+  Lemma minsert_ssorted : forall k (v : A) m, ssorted m -> ssorted (minsert k v m).
+  Proof.
+    intros k v m. induction m as [|[k2 v2] r IH]; intros H; cbn [minsert].
+    - cbn [ssorted map In]. split; [intros x []|exact I].
+    - destruct H as [Hlb Hr]. destruct (str_cmp k k2) eqn:E.
+      + apply str_cmp_eq in E. subst k2. cbn [ssorted]. split; assumption.
+      + cbn [ssorted]. split; [|split; assumption]. intros x [<- | Hx].
+        * apply str_ltb_lt. exact E.
+        * apply (str_ltb_trans k k2 x); [apply str_ltb_lt; exact E | apply Hlb; exact Hx].
+      + cbn [ssorted]. split; [|apply IH; exact Hr]. intros x Hx. apply keys_minsert in Hx. destruct Hx as [-> | Hx].
+        * apply str_cmp_gt_lt. exact E.
+        * apply Hlb. exact Hx.
+  Qed.
+
+  Lemma mget_none_iff : forall k (m : list (str * A)), mget k m = None <-> ~ In k (map fst m).
+  Proof.
+    intros k m. induction m as [|[k2 v2] r IH]; cbn [mget map fst In]; [intuition|].
+    destruct (str_eqb k k2) eqn:E.
+    - apply str_eqb_eq in E. subst k2. split; [discriminate | intros H; exfalso; apply H; left; reflexivity].
+    - rewrite IH. split; [intros H [H1|H1]; [subst k2; rewrite str_eqb_refl in E; discriminate | contradiction] | intuition].
+  Qed.
+
+  Lemma mget_in : forall k (v : A) m, mget k m = Some v -> In (k, v) m.
+  Proof.
+    intros k v m. induction m as [|[k2 v2] r IH]; cbn [mget]; [discriminate|].
+    destruct (str_eqb k k2) eqn:E; intros H.
+    - apply str_eqb_eq in E. subst k2. inversion H; subst. left. reflexivity.
+    - right. apply IH. exact H.
+  Qed.
+
+  Lemma in_mget : forall k (v : A) m, ssorted m -> In (k, v) m -> mget k m = Some v.
+  Proof.
+    intros k v m. induction m as [|[k2 v2] r IH]; intros Hs Hin; [destruct Hin|].
+    destruct Hs as [Hlb Hr]. cbn [mget]. destruct Hin as [Heq | Hin].
+    - inversion Heq; subst. rewrite str_eqb_refl. reflexivity.
+    - destruct (str_eqb k k2) eqn:E; [|apply IH; assumption].
+      apply str_eqb_eq in E. subst k2. exfalso.
+      assert (Hk : In k (map fst r)) by (apply in_map_iff; exists (k, v); split; [reflexivity | exact Hin]).
+      specialize (Hlb k Hk). rewrite str_ltb_irrefl in Hlb. discriminate.
+  Qed.
+
+  Lemma ssorted_sorted_strict : forall (m : list (str * A)), ssorted m -> sorted_strict (map fst m) = true.
+  Proof.
+    induction m as [|[k v] r IH]; intros H; [reflexivity|]. destruct H as [Hlb Hr].
+    destruct r as [|[k2 v2] r2]; [reflexivity|]. cbn [map fst sorted_strict]. apply andb_true_iff. split.
+    - apply Hlb. left. reflexivity.
+    - apply (IH Hr).
+  Qed.
+End SMap.
+
+(** * Shape of a plural candidate's key *)
+
+Lemma strip_prefix_app : forall p s rest, strip_prefix p s = Some rest -> s = p ++ rest.
+Proof.
+  induction p as [|x xs IH]; intros s rest H; cbn [strip_prefix] in H.
+  - inversion H. reflexivity.
+  - destruct s as [|y ys]; [discriminate|]. destruct (x =? y) eqn:E; [|discriminate].
+    apply N.eqb_eq in E. subst y. cbn [app]. f_equal. apply IH. exact H.
+Qed.
+
+Lemma rsplit_once_app : forall p s a b, rsplit_once p s = Some (a, b) -> s = a ++ p ++ b.
+Proof.
+  intros p. induction s as [|c r IH]; intros a b H; cbn [rsplit_once] in H.
+  - destruct p; [|discriminate]. inversion H. reflexivity.
+  - destruct (rsplit_once p r) as [[a' b']|] eqn:Hr.
+    + inversion H; subst. cbn [app]. f_equal. apply IH. reflexivity.
+    + destruct (strip_prefix p (c :: r)) as [rest|] eqn:Hs; [|discriminate]. inversion H; subst.
+      cbn [app]. apply strip_prefix_app. exact Hs.
+Qed.
+
+Lemma strip_suffix_app : forall suf s r, strip_suffix suf s = Some r -> s = r ++ suf.
+Proof.
+  intros suf s r H. unfold strip_suffix in H. destruct (strip_prefix (rev suf) (rev s)) as [x|] eqn:Hs; [|discriminate].
+  inversion H; subst. apply strip_prefix_app in Hs. rewrite <- (rev_involutive s), Hs, rev_app_distr, rev_involutive. reflexivity.
+Qed.
+
+Definition form_name (f : form) : str :=
+  match f with Zero => s_zero | One => s_one | Two => s_two | Few => s_few | Many => s_many | Other => s_other end.
+Lemma form_of_str_name : forall s f, form_of_str s = Some f -> s = form_name f.
+Proof.
+  intros s f H. unfold form_of_str in H.
+  repeat match type of H with
+         | (if str_eqb ?a ?b then _ else _) = _ =>
+             let E := fresh "E" in destruct (str_eqb a b) eqn:E;
+             [apply str_eqb_eq in E; inversion H; subst; reflexivity|]
+         end.
+  discriminate.
+Qed.
+
+Definition rule_infix (r : rule) : str := match r with Ordinal => s_ordinal | Cardinal => [] end.
+
+Lemma classify_shape : forall k v b r f id,
+  classify k v = Some (b, r, f, id) -> v = Leaf id /\ k = b ++ rule_infix r ++ [underscore] ++ form_name f.
+Proof.
+  intros k v b r f id H. unfold classify in H. destruct v as [i|i|i]; try discriminate.
+  destruct (rsplit_once [underscore] k) as [[base suffix]|] eqn:Hr; [|discriminate].
+  apply rsplit_once_app in Hr.
+  destruct (strip_suffix s_ordinal base) as [b'|] eqn:Hs.
+  - destruct (form_of_str suffix) as [f'|] eqn:Hf; [|discriminate]. inversion H; subst.
+    apply strip_suffix_app in Hs. apply form_of_str_name in Hf. subst. split; [reflexivity|].
+    cbn [rule_infix]. rewrite <- app_assoc. reflexivity.
+  - destruct (form_of_str suffix) as [f'|] eqn:Hf; [|discriminate]. inversion H; subst.
+    apply form_of_str_name in Hf. subst. split; reflexivity.
+Qed.
+
+(** the base key is a proper prefix of the candidate's key, hence sorts before it *)
+Lemma base_lt_key : forall k v b r f id, classify k v = Some (b, r, f, id) -> str_ltb b k = true.
+Proof.
+  intros k v b r f id H. destruct (classify_shape _ _ _ _ _ _ H) as [_ ->]. apply str_ltb_prefix.
+  destruct (rule_infix r); discriminate.
+Qed.
+
+(** base, rule type and form determine the key *)
+Lemma classify_inj : forall k1 v1 k2 v2 b r f i1 i2,
+  classify k1 v1 = Some (b, r, f, i1) -> classify k2 v2 = Some (b, r, f, i2) -> k1 = k2.
+Proof.
+  intros k1 v1 k2 v2 b r f i1 i2 H1 H2.
+  destruct (classify_shape _ _ _ _ _ _ H1) as [_ ->]. destruct (classify_shape _ _ _ _ _ _ H2) as [_ ->]. reflexivity.
+Qed.
+
+(** * Groups of the first loop versus the filter-based [members] of the specification *)
+
+Lemma str_eqb_sym : forall a b, str_eqb a b = str_eqb b a.
+Proof.
+  intros a b. destruct (str_eqb a b) eqn:E.
+  - apply str_eqb_eq in E. subst. symmetry. apply str_eqb_refl.
+  - destruct (str_eqb b a) eqn:E2; [|reflexivity]. apply str_eqb_eq in E2. subst. rewrite str_eqb_refl in E. discriminate.
+Qed.
+
+Definition to_member (kv : str * ival) : member :=
+  match tag_of kv with
+  | Some (_, r, f, id) => (f, fst kv, r, id)
+  | None => (Other, fst kv, Cardinal, 0)
+  end.
+Definition grp (ks : list (str * ival)) (b : str) : list member := map to_member (members ks b).
+
+Lemma mem_list_members : forall ks b, flat_map (member_for b) ks = grp ks b.
+Proof.
+  intros ks b. unfold grp, members. induction ks as [|kv r IH]; cbn [flat_map filter map]; [reflexivity|].
+  unfold member_for at 1, in_group at 1, to_member. destruct (tag_of kv) as [[[[b' rl] f] id]|] eqn:Ht.
+  - rewrite (str_eqb_sym b' b). destruct (str_eqb b b'); cbn [app map]; [|exact IH].
+    unfold to_member. rewrite Ht. f_equal. exact IH.
+  - exact IH.
+Qed.
+
+Lemma in_members : forall ks b kv, In kv (members ks b) <-> In kv ks /\ exists r f id, tag_of kv = Some (b, r, f, id).
+Proof.
+  intros ks b kv. unfold members. rewrite filter_In. unfold in_group. split.
+  - intros [Hin H]. split; [exact Hin|]. destruct (tag_of kv) as [[[[b' r] f] id]|]; [|discriminate].
+    apply str_eqb_eq in H. subst. eauto.
+  - intros [Hin [r [f [id Ht]]]]. split; [exact Hin|]. rewrite Ht. apply str_eqb_refl.
+Qed.
+
+Lemma to_member_fields : forall kv b r f id, tag_of kv = Some (b, r, f, id) -> to_member kv = (f, fst kv, r, id).
+Proof. intros kv b r f id H. unfold to_member. rewrite H. reflexivity. Qed.
+
+Lemma in_grp : forall ks b m, In m (grp ks b) <->
+  exists kv r f id, In kv ks /\ tag_of kv = Some (b, r, f, id) /\ m = (f, fst kv, r, id).
+Proof.
+  intros ks b m. unfold grp. rewrite in_map_iff. split.
+  - intros [kv [Hm Hin]]. apply in_members in Hin. destruct Hin as [Hin [r [f [id Ht]]]].
+    exists kv, r, f, id. rewrite (to_member_fields _ _ _ _ _ Ht) in Hm. auto.
+  - intros [kv [r [f [id [Hin [Ht Hm]]]]]]. exists kv. split.
+    + rewrite (to_member_fields _ _ _ _ _ Ht). auto.
+    + apply in_members. eauto.
+Qed.
+
+Lemma existsb_map : forall (A B : Type) (f : B -> bool) (g : A -> B) l, existsb f (map g l) = existsb (fun x => f (g x)) l.
+Proof. intros. induction l as [|x r IH]; cbn [map existsb]; [reflexivity|]. rewrite IH. reflexivity. Qed.
+Lemma existsb_ext_in : forall (A : Type) (f g : A -> bool) l, (forall x, In x l -> f x = g x) -> existsb f l = existsb g l.
+Proof.
+  intros A f g l H. induction l as [|x r IH]; cbn [existsb]; [reflexivity|].
+  rewrite (H x (or_introl eq_refl)), IH; [reflexivity|]. intros y Hy. apply H. right. exact Hy.
+Qed.
+
+Lemma grp_other : forall ks b, existsb is_other (grp ks b) = existsb (has_form Other) (members ks b).
+Proof.
+  intros ks b. unfold grp. rewrite existsb_map. apply existsb_ext_in. intros kv Hin.
+  apply in_members in Hin. destruct Hin as [_ [r [f [id Ht]]]].
+  unfold is_other, has_form, tag_form. rewrite (to_member_fields _ _ _ _ _ Ht), Ht. reflexivity.
+Qed.
+
+Lemma grp_mergeable : forall ks b, group_mergeable (grp ks b) = mergeable ks b.
+Proof.
+  intros ks b. unfold group_mergeable, mergeable. rewrite grp_other. unfold grp. rewrite map_length.
+  destruct (existsb (has_form Other) (members ks b)) eqn:E; [|rewrite !andb_false_r; reflexivity].
+  rewrite !andb_true_r. destruct (length (members ks b)) as [|[|n]] eqn:El; try reflexivity.
+  (* length 0 is impossible when an `_other` member exists *)
+  destruct (members ks b); [cbn in E; discriminate | cbn in El; discriminate].
+Qed.
+
+(** * Facts about the result of the first loop *)
+
+Definition groups_of (ks : list (str * ival)) : gmap := snd (fold_left step1 ks ([], [])).
+Definition keys0_of (ks : list (str * ival)) : kmap := fst (fold_left step1 ks ([], [])).
+
+Lemma first_loop_sorted : forall ks keys g,
+  ssorted keys -> ssorted g ->
+  ssorted (fst (fold_left step1 ks (keys, g))) /\ ssorted (snd (fold_left step1 ks (keys, g))).
+Proof.
+  induction ks as [|[k v] r IH]; intros keys g Hk Hg; cbn [fold_left]; [split; assumption|].
+  unfold step1 at 2 4. destruct (classify k v) as [[[[b' rl] f] id]|].
+  - apply IH; [exact Hk | apply minsert_ssorted; exact Hg].
+  - apply IH; [apply minsert_ssorted; exact Hk | exact Hg].
+Qed.
+
+Lemma first_loop_bases : forall ks keys g b,
+  In b (map fst (snd (fold_left step1 ks (keys, g)))) <->
+  In b (map fst g) \/ exists kv r f id, In kv ks /\ tag_of kv = Some (b, r, f, id).
+Proof.
+  induction ks as [|[k v] rr IH]; intros keys g b; cbn [fold_left].
+  - split; [auto | intros [H | [kv [r [f [id [[] _]]]]]]; exact H].
+  - unfold step1 at 2. destruct (classify k v) as [[[[b' rl] f'] id']|] eqn:Hc.
+    + rewrite IH. unfold gpush. rewrite keys_minsert. split.
+      * intros [[-> | H] | [kv [r [f [id [Hin Ht]]]]]].
+        -- right. exists (k, v), rl, f', id'. split; [left; reflexivity | exact Hc].
+        -- left. exact H.
+        -- right. exists kv, r, f, id. split; [right; exact Hin | exact Ht].
+      * intros [H | [kv [r [f [id [[<- | Hin] Ht]]]]]].
+        -- left. right. exact H.
+        -- unfold tag_of in Ht. cbn [fst snd] in Ht. rewrite Hc in Ht. inversion Ht; subst. left. left. reflexivity.
+        -- right. exists kv, r, f, id. split; assumption.
+    + rewrite IH. split.
+      * intros [H | [kv [r [f [id [Hin Ht]]]]]]; [left; exact H | right; exists kv, r, f, id; split; [right; exact Hin | exact Ht]].
+      * intros [H | [kv [r [f [id [[<- | Hin] Ht]]]]]]; [left; exact H | | right; exists kv, r, f, id; split; assumption].
+        unfold tag_of in Ht. cbn [fst snd] in Ht. rewrite Hc in Ht. discriminate.
+Qed.
+
+Lemma groups_sorted : forall ks, ssorted (groups_of ks).
+Proof. intros ks. apply (first_loop_sorted ks [] []); exact I. Qed.
+Lemma keys0_sorted : forall ks, ssorted (keys0_of ks).
+Proof. intros ks. apply (first_loop_sorted ks [] []); exact I. Qed.
+
+Lemma groups_gget : forall ks b, gget b (groups_of ks) = grp ks b.
+Proof.
+  intros ks b. unfold groups_of. rewrite first_loop_groups. unfold gget at 1. cbn [mget app]. apply mem_list_members.
+Qed.
+Lemma groups_content : forall ks b g, In (b, g) (groups_of ks) -> g = grp ks b.
+Proof.
+  intros ks b g Hin. pose proof (in_mget _ _ _ (groups_sorted ks) Hin) as Hg.
+  pose proof (groups_gget ks b) as H. unfold gget in H. rewrite Hg in H. exact H.
+Qed.
+
+Lemma groups_bases : forall ks b, In b (map fst (groups_of ks)) <-> members ks b <> [].
+Proof.
+  intros ks b. unfold groups_of. rewrite first_loop_bases. cbn [map In]. split.
+  - intros [[] | [kv [r [f [id [Hin Ht]]]]]] Hm.
+    assert (Hk : In kv (members ks b)) by (apply in_members; eauto). rewrite Hm in Hk. destruct Hk.
+  - intros Hm. right. destruct (members ks b) as [|kv rest] eqn:E; [contradiction|].
+    assert (Hk : In kv (members ks b)) by (rewrite E; left; reflexivity).
+    apply in_members in Hk. destruct Hk as [Hin [r [f [id Ht]]]]. exists kv, r, f, id. auto.
+Qed.
+
+Lemma NoDup_fst_unique : forall (ks : list (str * ival)) kv1 kv2,
+  NoDup (map fst ks) -> In kv1 ks -> In kv2 ks -> fst kv1 = fst kv2 -> kv1 = kv2.
+Proof.
+  induction ks as [|kv r IH]; intros kv1 kv2 Hnd H1 H2 Heq; [destruct H1|].
+  cbn [map] in Hnd. inversion Hnd as [|? ? Hnot Hnd']; subst.
+  destruct H1 as [<- | H1]; destruct H2 as [<- | H2].
+  - reflexivity.
+  - exfalso. apply Hnot. rewrite Heq. apply in_map. exact H2.
+  - exfalso. apply Hnot. rewrite <- Heq. apply in_map. exact H1.
+  - apply IH; assumption.
+Qed.
+
+Lemma keys0_sound : forall ks k v, mget k (keys0_of ks) = Some v ->
+  exists kv, In kv ks /\ fst kv = k /\ tag_of kv = None /\ v = Kept (snd kv).
+Proof.
+  intros ks k v H. unfold keys0_of in H. rewrite first_loop_keys in H. cbn [mget] in H.
+  destruct (find _ (rev ks)) as [kv|] eqn:Hf; [|discriminate]. apply find_some in Hf. destruct Hf as [Hin Hp].
+  apply andb_true_iff in Hp. destruct Hp as [Hk Ht]. apply str_eqb_eq in Hk. inversion H; subst.
+  exists kv. split; [apply in_rev; exact Hin|]. split; [reflexivity|]. split; [|reflexivity].
+  destruct (tag_of kv); [discriminate | reflexivity].
+Qed.
+
+Lemma keys0_complete : forall ks kv, NoDup (map fst ks) -> In kv ks -> tag_of kv = None ->
+  mget (fst kv) (keys0_of ks) = Some (Kept (snd kv)).
+Proof.
+  intros ks kv Hnd Hin Ht. unfold keys0_of. rewrite first_loop_keys. cbn [mget].
+  destruct (find _ (rev ks)) as [kv'|] eqn:Hf.
+  - apply find_some in Hf. destruct Hf as [Hin' Hp]. apply andb_true_iff in Hp. destruct Hp as [Hk _].
+    apply str_eqb_eq in Hk. apply in_rev in Hin'.
+    rewrite (NoDup_fst_unique ks kv kv' Hnd Hin Hin' Hk). reflexivity.
+  - exfalso. assert (Hr : In kv (rev ks)) by (apply in_rev; rewrite rev_involutive; exact Hin).
+    pose proof (find_none _ _ Hf kv Hr) as Hn. cbn beta in Hn. rewrite str_eqb_refl, Ht in Hn. discriminate.
+Qed.
+
+(** * Helper facts for the second loop *)
+
+Lemma ssorted_split : forall (A : Type) (l1 : list (str * A)) k v l2,
+  ssorted (l1 ++ (k, v) :: l2) ->
+  (forall x, In x (map fst l1) -> str_ltb x k = true) /\ (forall y, In y (map fst l2) -> str_ltb k y = true).
+Proof.
+  intros A l1 k v l2. induction l1 as [|[k1 v1] r IH]; cbn [app ssorted]; intros H.
+  - destruct H as [Hlb _]. split; [intros x [] | exact Hlb].
+  - destruct H as [Hlb Hr]. destruct (IH Hr) as [H1 H2]. split; [|exact H2].
+    intros x [<- | Hx]; [|apply H1; exact Hx]. apply Hlb. rewrite map_app. apply in_or_app. right. left. reflexivity.
+Qed.
+
+Lemma reinsert_ssorted : forall g keys, ssorted keys -> ssorted (reinsert g keys).
+Proof.
+  unfold reinsert. induction g as [|m r IH]; intros keys H; cbn [fold_left]; [exact H|]. apply IH. apply minsert_ssorted. exact H.
+Qed.
+
+Lemma mget_reinsert : forall g keys k,
+  mget k (reinsert g keys) =
+  match find (fun m => str_eqb k (m_key m)) (rev g) with
+  | Some m => Some (Kept (Leaf (m_id m)))
+  | None => mget k keys
+  end.
+Proof.
+  unfold reinsert. induction g as [|m r IH]; intros keys k; cbn [fold_left rev]; [reflexivity|].
+  rewrite IH, find_app_or. destruct (find _ (rev r)); [reflexivity|]. cbn [find]. rewrite mget_minsert.
+  destruct (str_eqb k (m_key m)); reflexivity.
+Qed.
+
+Lemma in_remaining : forall ks kv, In kv (remaining ks) <-> In kv ks /\ kv_merged ks kv = false.
+Proof. intros ks kv. unfold remaining. rewrite filter_In. rewrite negb_true_iff. reflexivity. Qed.
+
+Lemma collides_iff : forall ks b, collides ks b = true <-> exists kv, In kv ks /\ kv_merged ks kv = false /\ fst kv = b.
+Proof.
+  intros ks b. unfold collides. rewrite existsb_exists. split.
+  - intros [kv [Hin H]]. apply in_remaining in Hin. apply str_eqb_eq in H. exists kv. tauto.
+  - intros [kv [Hin [Hm H]]]. exists kv. split; [apply in_remaining; tauto | apply str_eqb_eq; exact H].
+Qed.
+
+Lemma kv_merged_tag : forall ks kv b r f id, tag_of kv = Some (b, r, f, id) -> kv_merged ks kv = mergeable ks b.
+Proof. intros ks kv b r f id H. unfold kv_merged. rewrite H. reflexivity. Qed.
+Lemma kv_merged_none : forall ks kv, tag_of kv = None -> kv_merged ks kv = false.
+Proof. intros ks kv H. unfold kv_merged. rewrite H. reflexivity. Qed.
+
+Lemma has_rule_tag : forall kv b r f id r', tag_of kv = Some (b, r, f, id) -> has_rule r' kv = rule_eqb r r'.
+Proof. intros kv b r f id r' H. unfold has_rule, tag_rule. rewrite H. reflexivity. Qed.
+
+Lemma mixed_of_two : forall ks b kv1 kv2 r1 f1 i1 r2 f2 i2,
+  In kv1 ks -> In kv2 ks -> tag_of kv1 = Some (b, r1, f1, i1) -> tag_of kv2 = Some (b, r2, f2, i2) -> r1 <> r2 ->
+  mixed ks b = true.
+Proof.
+  intros ks b kv1 kv2 r1 f1 i1 r2 f2 i2 H1 H2 T1 T2 Hne. unfold mixed.
+  assert (M1 : In kv1 (members ks b)) by (apply in_members; eauto).
+  assert (M2 : In kv2 (members ks b)) by (apply in_members; eauto).
+  apply andb_true_iff. split; apply existsb_exists.
+  - destruct r1, r2; try contradiction.
+    + exists kv1. split; [exact M1|]. rewrite (has_rule_tag _ _ _ _ _ _ T1). reflexivity.
+    + exists kv2. split; [exact M2|]. rewrite (has_rule_tag _ _ _ _ _ _ T2). reflexivity.
+  - destruct r1, r2; try contradiction.
+    + exists kv2. split; [exact M2|]. rewrite (has_rule_tag _ _ _ _ _ _ T2). reflexivity.
+    + exists kv1. split; [exact M1|]. rewrite (has_rule_tag _ _ _ _ _ _ T1). reflexivity.
+Qed.
+
+Lemma split_last_snoc : forall (A : Type) (l : list A) x, split_last (l ++ [x]) = Some (l, x).
+Proof.
+  intros A. induction l as [|y r IH]; intros x; cbn [app split_last]; [reflexivity|].
+  rewrite IH. destruct (r ++ [x]) eqn:E; [destruct r; discriminate | reflexivity].
+Qed.
+Lemma path_eqb_refl : forall p, path_eqb p p = true.
+Proof. induction p as [|x r IH]; cbn [path_eqb]; [reflexivity|]. rewrite str_eqb_refl. exact IH. Qed.
+
+(** * The second loop, globally *)
+
+Lemma group_panic : forall is_key cats path b g rest keys ws,
+  group_mergeable g = true -> is_key b = false -> loop2 is_key cats path ((b, g) :: rest) keys ws = RPanic.
+Proof.
+  intros is_key cats path b g rest keys ws Hm Hk. cbn [loop2]. unfold group_mergeable in Hm.
+  apply andb_true_iff in Hm. destruct Hm as [Hlen Hoth]. apply negb_true_iff in Hlen. rewrite Hlen, Hoth. cbn [negb orb].
+  destruct (remove_first_other g) as [[o others]|]; [|reflexivity]. rewrite Hk. reflexivity.
+Qed.
+
+Section Global.
+  Variable is_key : str -> bool.
+  Variable cats : rule -> list form.
+  Variable path : list str.
+  Variable ks : list (str * ival).
+  Hypothesis Hnd : NoDup (map fst ks).
+
+  (** a key whose group (if any) has been processed *)
+  Definition settled (pre : gmap) (kv : str * ival) : Prop :=
+    match tag_of kv with None => True | Some (b, _, _, _) => In b (map fst pre) end.
+
+  Definition plural_node (b : str) : option oval :=
+    match remove_first_other (grp ks b) with
+    | Some (o, others) => Some (PluralV (m_rule o) (m_id o) (build_forms others []))
+    | None => None
+    end.
+
+  Record LInv (pre : gmap) (keys : kmap) : Prop := mk_linv {
+    li_sorted : ssorted keys;
+    li_sound : forall k v, mget k keys = Some v ->
+      (exists kv, In kv ks /\ fst kv = k /\ v = Kept (snd kv) /\ kv_merged ks kv = false /\ settled pre kv)
+      \/ (In k (map fst pre) /\ mergeable ks k = true /\ plural_node k = Some v);
+    li_complete : forall kv, In kv ks -> kv_merged ks kv = false -> settled pre kv ->
+      mget (fst kv) keys = Some (Kept (snd kv));
+    li_plural : forall b, In b (map fst pre) -> mergeable ks b = true ->
+      mixed ks b = false /\ collides ks b = false /\ is_key b = true /\
+      exists v, plural_node b = Some v /\ mget b keys = Some v }.
+
+  Lemma settled_mono : forall pre x kv, settled pre kv -> settled (pre ++ x) kv.
+  Proof.
+    intros pre x kv H. unfold settled in *. destruct (tag_of kv) as [[[[b r] f] id]|]; [|exact I].
+    rewrite map_app. apply in_or_app. left. exact H.
+  Qed.
+
+  Lemma tag_leaf : forall kv b r f id, tag_of kv = Some (b, r, f, id) -> snd kv = Leaf id.
+  Proof. intros kv b r f id H. unfold tag_of in H. apply classify_shape in H. apply H. Qed.
+
+  Lemma linv_start : LInv [] (keys0_of ks).
+  Proof.
+    constructor.
+    - apply keys0_sorted.
+    - intros k v H. left. destruct (keys0_sound _ _ _ H) as [kv [Hin [Hk [Ht Hv]]]].
+      exists kv. repeat split; auto. + apply kv_merged_none. exact Ht. + unfold settled. rewrite Ht. exact I.
+    - intros kv Hin Hm Hs. unfold settled in Hs. destruct (tag_of kv) as [[[[b r] f] id]|] eqn:Ht; [destruct Hs|].
+      apply keys0_complete; assumption.
+    - intros b [].
+  Qed.
+
+  Lemma linv_escape : forall pre keys b g,
+    LInv pre keys -> g = grp ks b -> mergeable ks b = false ->
+    (forall x, In x (map fst pre) -> str_ltb x b = true) ->
+    LInv (pre ++ [(b, g)]) (reinsert g keys).
+  Proof.
+    intros pre keys b g [Hs Hsound Hcompl Hpl] Hg Hm Hpre. constructor.
+    - apply reinsert_ssorted. exact Hs.
+    - intros k v H. rewrite mget_reinsert in H.
+      destruct (find (fun m => str_eqb k (m_key m)) (rev g)) as [m|] eqn:Hf.
+      + apply find_some in Hf. destruct Hf as [Hin Hk]. apply str_eqb_eq in Hk. apply in_rev in Hin. rewrite Hg in Hin.
+        apply in_grp in Hin. destruct Hin as [kv [r [f [id [Hin [Ht Hmm]]]]]]. subst m. cbn [m_key m_id] in *.
+        inversion H; subst. left. exists kv. split; [exact Hin|]. split; [reflexivity|].
+        split; [rewrite (tag_leaf _ _ _ _ _ Ht); reflexivity|]. split; [rewrite (kv_merged_tag _ _ _ _ _ _ Ht); exact Hm|].
+        unfold settled. rewrite Ht, map_app. apply in_or_app. right. left. reflexivity.
+      + destruct (Hsound k v H) as [[kv [Hin [Hk [Hv [Hkm Hst]]]]] | [Hin [Hmg Hpn]]].
+        * left. exists kv. repeat split; auto. apply settled_mono. exact Hst.
+        * right. split; [rewrite map_app; apply in_or_app; left; exact Hin | auto].
+    - intros kv Hin Hkm Hst. rewrite mget_reinsert.
+      destruct (find (fun m => str_eqb (fst kv) (m_key m)) (rev g)) as [m|] eqn:Hf.
+      + apply find_some in Hf. destruct Hf as [Hinm Hk]. apply str_eqb_eq in Hk. apply in_rev in Hinm. rewrite Hg in Hinm.
+        apply in_grp in Hinm. destruct Hinm as [kv' [r [f [id [Hin' [Ht Hmm]]]]]]. subst m. cbn [m_key m_id] in *.
+        rewrite (NoDup_fst_unique ks kv kv' Hnd Hin Hin' Hk). rewrite (tag_leaf _ _ _ _ _ Ht). reflexivity.
+      + apply Hcompl; [exact Hin | exact Hkm |]. unfold settled in *.
+        destruct (tag_of kv) as [[[[b0 r] f] id]|] eqn:Ht; [|exact I].
+        rewrite map_app in Hst. apply in_app_or in Hst. destruct Hst as [Hst | [Hb | []]]; [exact Hst|].
+        cbn [fst] in Hb. subst b0. exfalso.
+        assert (Hmem : In (f, fst kv, r, id) (rev g)).
+        { apply in_rev. rewrite rev_involutive, Hg. apply in_grp. exists kv, r, f, id. auto. }
+        pose proof (find_none _ _ Hf _ Hmem) as Hn. cbn [m_key] in Hn. rewrite str_eqb_refl in Hn. discriminate.
+    - intros b' Hin' Hmg. rewrite map_app in Hin'. apply in_app_or in Hin'. destruct Hin' as [Hin' | [Hb | []]].
+      2: { cbn [fst] in Hb. subst b'. congruence. }
+      destruct (Hpl b' Hin' Hmg) as [Hmx [Hco [Hik [v [Hpn Hget]]]]]. repeat split; auto.
+      exists v. split; [exact Hpn|]. rewrite mget_reinsert.
+      destruct (find (fun m => str_eqb b' (m_key m)) (rev g)) as [m|] eqn:Hf; [|exact Hget]. exfalso.
+      apply find_some in Hf. destruct Hf as [Hinm Hk]. apply str_eqb_eq in Hk. apply in_rev in Hinm. rewrite Hg in Hinm.
+      apply in_grp in Hinm. destruct Hinm as [kv [r [f [id [Hin [Ht Hmm]]]]]]. subst m. cbn [m_key] in Hk.
+      unfold tag_of in Ht. apply base_lt_key in Ht. rewrite <- Hk in Ht.
+      pose proof (Hpre b' Hin') as Hlt. rewrite (str_ltb_asym _ _ Hlt) in Ht. discriminate.
+  Qed.
+
+  Lemma linv_merge : forall pre keys b g rest v,
+    LInv pre keys -> groups_of ks = pre ++ (b, g) :: rest ->
+    mergeable ks b = true -> mixed ks b = false -> is_key b = true -> mmem b keys = false -> plural_node b = Some v ->
+    LInv (pre ++ [(b, g)]) (minsert b v keys).
+  Proof.
+    intros pre keys b g rest v [Hs Hsound Hcompl Hpl] HG Hm Hmx Hik Hmm Hpn.
+    pose proof (groups_sorted ks) as HGs. rewrite HG in HGs. destruct (ssorted_split _ _ _ _ _ HGs) as [Hpre Hrest].
+    assert (Hnb : mget b keys = None) by (unfold mmem in Hmm; destruct (mget b keys); [discriminate | reflexivity]).
+    constructor.
+    - apply minsert_ssorted. exact Hs.
+    - intros k v' H. rewrite mget_minsert in H. destruct (str_eqb k b) eqn:E.
+      + apply str_eqb_eq in E. subst k. inversion H; subst v'. right.
+        split; [rewrite map_app; apply in_or_app; right; left; reflexivity | auto].
+      + destruct (Hsound k v' H) as [[kv [Hin [Hk [Hv [Hkm Hst]]]]] | [Hin [Hmg Hpn']]].
+        * left. exists kv. repeat split; auto. apply settled_mono. exact Hst.
+        * right. split; [rewrite map_app; apply in_or_app; left; exact Hin | auto].
+    - intros kv Hin Hkm Hst. rewrite mget_minsert.
+      assert (Hst' : settled pre kv).
+      { unfold settled in *. destruct (tag_of kv) as [[[[b0 r] f] id]|] eqn:Ht; [|exact I].
+        rewrite map_app in Hst. apply in_app_or in Hst. destruct Hst as [Hst | [Hb | []]]; [exact Hst|].
+        cbn [fst] in Hb. subst b0. rewrite (kv_merged_tag _ _ _ _ _ _ Ht) in Hkm. congruence. }
+      pose proof (Hcompl kv Hin Hkm Hst') as Hget.
+      destruct (str_eqb (fst kv) b) eqn:E; [|exact Hget].
+      apply str_eqb_eq in E. rewrite E in Hget. congruence.
+    - intros b' Hin' Hmg. rewrite map_app in Hin'. apply in_app_or in Hin'. destruct Hin' as [Hin' | [Hb | []]].
+      + destruct (Hpl b' Hin' Hmg) as [Hmx' [Hco [Hik' [v' [Hpn' Hget]]]]]. repeat split; auto.
+        exists v'. split; [exact Hpn'|]. rewrite mget_minsert. destruct (str_eqb b' b) eqn:E; [|exact Hget].
+        apply str_eqb_eq in E. subst b'. congruence.
+      + cbn [fst] in Hb. subst b'. split; [exact Hmx|]. split; [|split; [exact Hik|]].
+        * destruct (collides ks b) eqn:Hc; [|reflexivity]. exfalso. apply collides_iff in Hc.
+          destruct Hc as [kv [Hin [Hkm Hk]]].
+          destruct (tag_of kv) as [[[[b0 r] f] id]|] eqn:Ht.
+          -- assert (Hb0 : In b0 (map fst (groups_of ks))).
+             { apply groups_bases. intros Hnil. assert (Hk' : In kv (members ks b0)) by (apply in_members; eauto).
+               rewrite Hnil in Hk'. destruct Hk'. }
+             rewrite HG, map_app in Hb0. apply in_app_or in Hb0. cbn [map fst In] in Hb0.
+             destruct Hb0 as [Hb0 | [Hb0 | Hb0]].
+             ++ assert (Hst : settled pre kv) by (unfold settled; rewrite Ht; exact Hb0).
+                pose proof (Hcompl kv Hin Hkm Hst) as Hget. rewrite Hk in Hget. congruence.
+             ++ subst b0. rewrite (kv_merged_tag _ _ _ _ _ _ Ht) in Hkm. congruence.
+             ++ pose proof (Hrest b0 Hb0) as Hlt. unfold tag_of in Ht. apply base_lt_key in Ht. rewrite Hk in Ht.
+                rewrite (str_ltb_asym _ _ Hlt) in Ht. discriminate.
+          -- assert (Hst : settled pre kv) by (unfold settled; rewrite Ht; exact I).
+             pose proof (Hcompl kv Hin Hkm Hst) as Hget. rewrite Hk in Hget. congruence.
+        * exists v. split; [exact Hpn|]. rewrite mget_minsert, str_eqb_refl. reflexivity.
+  Qed.
+End Global.
+
+Section Global2.
+  Variable is_key : str -> bool.
+  Variable cats : rule -> list form.
+  Variable path : list str.
+  Variable ks : list (str * ival).
+  Hypothesis Hnd : NoDup (map fst ks).
+
+  Lemma mixed_witness : forall b, mixed ks b = true ->
+    exists m1 m2, In m1 (grp ks b) /\ In m2 (grp ks b) /\ m_rule m1 <> m_rule m2.
+  Proof.
+    intros b H. unfold mixed in H. apply andb_true_iff in H. destruct H as [H1 H2].
+    apply existsb_exists in H1. destruct H1 as [kv1 [M1 R1]]. apply existsb_exists in H2. destruct H2 as [kv2 [M2 R2]].
+    apply in_members in M1. destruct M1 as [I1 [r1 [f1 [i1 T1]]]]. apply in_members in M2. destruct M2 as [I2 [r2 [f2 [i2 T2]]]].
+    rewrite (has_rule_tag _ _ _ _ _ _ T1) in R1. rewrite (has_rule_tag _ _ _ _ _ _ T2) in R2.
+    apply rule_eqb_eq in R1. apply rule_eqb_eq in R2. subst r1 r2.
+    exists (f1, fst kv1, Cardinal, i1), (f2, fst kv2, Ordinal, i2).
+    split; [apply in_grp; exists kv1, Cardinal, f1, i1; auto|]. split; [apply in_grp; exists kv2, Ordinal, f2, i2; auto|].
+    cbn [m_rule]. discriminate.
+  Qed.
+
+  Lemma not_mixed_uniform : forall b, mixed ks b = false ->
+    forall m1 m2, In m1 (grp ks b) -> In m2 (grp ks b) -> m_rule m1 = m_rule m2.
+  Proof.
+    intros b H m1 m2 H1 H2. apply in_grp in H1. destruct H1 as [kv1 [r1 [f1 [i1 [I1 [T1 ->]]]]]].
+    apply in_grp in H2. destruct H2 as [kv2 [r2 [f2 [i2 [I2 [T2 ->]]]]]]. cbn [m_rule].
+    destruct r1, r2; try reflexivity; exfalso.
+    - rewrite (mixed_of_two ks b kv1 kv2 _ _ _ _ _ _ I1 I2 T1 T2) in H; discriminate.
+    - rewrite (mixed_of_two ks b kv1 kv2 _ _ _ _ _ _ I1 I2 T1 T2) in H; discriminate.
+  Qed.
+
+  Definition group_warns (bg : str * list member) : list warning :=
+    if group_mergeable (snd bg) then
+      match remove_first_other (snd bg) with
+      | Some (o, others) => unused cats (path ++ [fst bg]) (m_rule o) (build_forms others [])
+      | None => []
+      end
+    else [].
+
+  Definition outcome (pre gs : gmap) (ws : list warning) (r : res) : Prop :=
+    match r with
+    | ROk out ws' => LInv is_key ks (pre ++ gs) out /\ ws' = ws ++ flat_map group_warns gs
+    | RErr EConflict p => exists b, p = path ++ [b] /\ mergeable ks b = true /\ mixed ks b = true
+    | RErr ECollide p => exists b, p = path ++ [b] /\ mergeable ks b = true /\ collides ks b = true
+    | RPanic => exists b, mergeable ks b = true /\ is_key b = false
+    end.
+
+  Lemma outcome_shift : forall pre b g rest ws ws1 r,
+    ws1 = ws ++ group_warns (b, g) ->
+    outcome (pre ++ [(b, g)]) rest ws1 r -> outcome pre ((b, g) :: rest) ws r.
+  Proof.
+    intros pre b g rest ws ws1 r Hw H. destruct r as [out ws'|[|] p|]; cbn [outcome] in *; try exact H.
+    destruct H as [Hinv Hws]. rewrite <- app_assoc in Hinv. cbn [app] in Hinv. split; [exact Hinv|].
+    cbn [flat_map]. rewrite Hws, Hw, <- app_assoc. reflexivity.
+  Qed.
+
+  Lemma loop2_correct : forall gs pre keys ws,
+    groups_of ks = pre ++ gs -> LInv is_key ks pre keys ->
+    outcome pre gs ws (loop2 is_key cats path gs keys ws).
+  Proof.
+    induction gs as [|[b g] rest IH]; intros pre keys ws HG Hinv.
+    - cbn [loop2 outcome flat_map]. rewrite !app_nil_r. split; [exact Hinv | reflexivity].
+    - assert (Hg : g = grp ks b).
+      { apply groups_content. rewrite HG. apply in_or_app. right. left. reflexivity. }
+      pose proof (groups_sorted ks) as HGs. rewrite HG in HGs. destruct (ssorted_split _ _ _ _ _ HGs) as [Hpre Hrest].
+      assert (HG' : groups_of ks = (pre ++ [(b, g)]) ++ rest) by (rewrite <- app_assoc; exact HG).
+      assert (Hnotpre : ~ In b (map fst pre)).
+      { intros Hin. pose proof (Hpre b Hin) as Hlt. rewrite str_ltb_irrefl in Hlt. discriminate. }
+      destruct (group_mergeable g) eqn:Hgm.
+      + assert (Hm : mergeable ks b = true) by (rewrite <- grp_mergeable, <- Hg; exact Hgm).
+        destruct (is_key b) eqn:Hik.
+        2: { rewrite (group_panic is_key cats path b g rest keys ws Hgm Hik). cbn [outcome]. exists b. auto. }
+        destruct (mixed ks b) eqn:Hmx.
+        * destruct (mixed_witness b Hmx) as [m1 [m2 [H1 [H2 Hne]]]]. rewrite <- Hg in H1, H2.
+          rewrite (group_conflict is_key cats path b g rest keys ws m1 m2 Hgm Hik H1 H2 Hne).
+          cbn [outcome]. exists b. auto.
+        * assert (Hun : forall m1 m2, In m1 g -> In m2 g -> m_rule m1 = m_rule m2).
+          { intros m1 m2 H1 H2. rewrite Hg in H1, H2. apply (not_mixed_uniform b Hmx); assumption. }
+          destruct (group_merge is_key cats path b g rest keys ws Hgm Hik Hun) as [o [others [Hr [Ho [Hin Hloop]]]]].
+          rewrite Hloop. destruct (mmem b keys) eqn:Hmm.
+          -- cbn [outcome]. exists b. split; [reflexivity|]. split; [exact Hm|].
+             unfold mmem in Hmm. destruct (mget b keys) as [v|] eqn:Hget; [|discriminate].
+             destruct (li_sound _ _ _ _ Hinv b v Hget) as [[kv [Hkin [Hk [Hv [Hkm Hst]]]]] | [Hbin _]]; [|contradiction].
+             apply collides_iff. exists kv. auto.
+          -- assert (Hpn : plural_node ks b = Some (PluralV (m_rule o) (m_id o) (build_forms others []))).
+             { unfold plural_node. rewrite <- Hg, Hr. reflexivity. }
+             pose proof (linv_merge is_key ks pre keys b g rest _ Hinv HG Hm Hmx Hik Hmm Hpn) as Hinv'.
+             apply (outcome_shift pre b g rest ws _ _ eq_refl).
+             unfold group_warns at 1. cbn [fst snd]. rewrite Hgm, Hr. apply IH; assumption.
+      + assert (Hm : mergeable ks b = false) by (rewrite <- grp_mergeable, <- Hg; exact Hgm).
+        rewrite (group_escape is_key cats path b g rest keys ws Hgm).
+        pose proof (linv_escape is_key ks Hnd pre keys b g Hinv Hg Hm Hpre) as Hinv'.
+        apply (outcome_shift pre b g rest ws ws).
+        * unfold group_warns. cbn [snd]. rewrite Hgm, app_nil_r. reflexivity.
+        * apply IH; assumption.
+  Qed.
+End Global2.
+
+(** * From the invariant to the executable specification *)
+
+Lemma mem_str_In : forall k l, mem_str k l = true <-> In k l.
+Proof.
+  intros k l. unfold mem_str. rewrite existsb_exists. split.
+  - intros [x [Hin H]]. apply str_eqb_eq in H. subst. exact Hin.
+  - intros H. exists k. split; [exact H | apply str_eqb_refl].
+Qed.
+
+Lemma in_keys_mget : forall (A : Type) k (m : list (str * A)), In k (map fst m) -> exists v, mget k m = Some v.
+Proof.
+  intros A k m H. destruct (mget k m) as [v|] eqn:E; [eauto|]. apply mget_none_iff in E. contradiction.
+Qed.
+
+Lemma mergeable_members : forall ks b, mergeable ks b = true -> members ks b <> [].
+Proof.
+  intros ks b H Hnil. unfold mergeable in H. rewrite Hnil in H. cbn in H. discriminate.
+Qed.
+
+Lemma in_merged_bases : forall ks b, In b (merged_bases ks) <-> mergeable ks b = true.
+Proof.
+  intros ks b. unfold merged_bases. rewrite in_flat_map. split.
+  - intros [kv [Hin H]]. destruct (tag_of kv) as [[[[b0 r] f] id]|]; [|destruct H].
+    destruct (mergeable ks b0) eqn:E; [|destruct H]. destruct H as [<- | []]. exact E.
+  - intros H. pose proof (mergeable_members _ _ H) as Hne. destruct (members ks b) as [|kv rest] eqn:E; [contradiction|].
+    assert (Hk : In kv (members ks b)) by (rewrite E; left; reflexivity). apply in_members in Hk.
+    destruct Hk as [Hin [r [f [id Ht]]]]. exists kv. split; [exact Hin|]. rewrite Ht, H. left. reflexivity.
+Qed.
+
+Lemma finsert_in : forall f v f' v' m, In (f, v) (finsert f' v' m) -> (f = f' /\ v = v') \/ In (f, v) m.
+Proof.
+  intros f v f' v' m. induction m as [|[f2 v2] r IH]; cbn [finsert]; intros H.
+  - destruct H as [H | []]. inversion H. auto.
+  - destruct (form_ltb f' f2).
+    + destruct H as [H | H]; [inversion H; auto | right; exact H].
+    + destruct (form_eqb f' f2).
+      * destruct H as [H | H]; [inversion H; auto | right; right; exact H].
+      * destruct H as [H | H]; [right; left; exact H|]. destruct (IH H) as [A | A]; [left; exact A | right; right; exact A].
+Qed.
+
+Lemma build_forms_in : forall others acc f v,
+  In (f, v) (build_forms others acc) -> (exists m, In m others /\ m_form m = f) \/ In (f, v) acc.
+Proof.
+  induction others as [|m r IH]; intros acc f v H; cbn [build_forms fold_left] in H; [right; exact H|].
+  fold (build_forms r (finsert (m_form m) (m_id m) acc)) in H.
+  destruct (IH _ _ _ H) as [[m' [Hin Hf]] | Hacc].
+  - left. exists m'. split; [right; exact Hin | exact Hf].
+  - apply finsert_in in Hacc. destruct Hacc as [[Hf _] | Hacc]; [|right; exact Hacc].
+    left. exists m. split; [left; reflexivity | symmetry; exact Hf].
+Qed.
+
+Lemma fget_in : forall f m v, fget f m = Some v -> In (f, v) m.
+Proof.
+  intros f m v. induction m as [|[f2 v2] r IH]; cbn [fget]; [discriminate|].
+  destruct (form_eqb f f2) eqn:E; intros H.
+  - apply form_eqb_eq in E. subst. inversion H. left. reflexivity.
+  - right. apply IH. exact H.
+Qed.
+
+Lemma remove_first_other_notin : forall g o others,
+  NoDup g -> remove_first_other g = Some (o, others) -> ~ In o others.
+Proof.
+  induction g as [|m r IH]; intros o others Hnd H; cbn [remove_first_other] in H; [discriminate|].
+  inversion Hnd as [|? ? Hnot Hnd']; subst. destruct (is_other m).
+  - inversion H; subst. exact Hnot.
+  - destruct (remove_first_other r) as [[o' r']|] eqn:Hr; [|discriminate]. inversion H; subst.
+    intros [Heq | Hin].
+    + subst m. apply Hnot. apply (remove_first_other_spec _ _ _ Hr). left. reflexivity.
+    + apply (IH _ _ Hnd' eq_refl). exact Hin.
+Qed.
+
+Lemma NoDup_map_filter : forall (A B : Type) (f : A -> B) (p : A -> bool) l, NoDup (map f l) -> NoDup (map f (filter p l)).
+Proof.
+  intros A B f p l. induction l as [|x r IH]; cbn [map filter]; intros H; [constructor|].
+  inversion H as [|? ? Hnot Hnd]; subst. destruct (p x); [|apply IH; exact Hnd].
+  cbn [map]. constructor; [|apply IH; exact Hnd]. intros Hin. apply Hnot.
+  apply in_map_iff in Hin. destruct Hin as [y [Hy Hin]]. apply filter_In in Hin. apply in_map_iff. exists y. tauto.
+Qed.
+
+Lemma m_key_to_member : forall kv, m_key (to_member kv) = fst kv.
+Proof. intros kv. unfold to_member. destruct (tag_of kv) as [[[[b r] f] id]|]; reflexivity. Qed.
+
+Lemma NoDup_grp : forall ks b, NoDup (map fst ks) -> NoDup (grp ks b).
+Proof.
+  intros ks b H. apply (NoDup_map_inv m_key). unfold grp. rewrite map_map.
+  rewrite (map_ext _ fst m_key_to_member). apply NoDup_map_filter. exact H.
+Qed.
+
+Lemma warning_eqb_refl : forall w, warning_eqb w w = true.
+Proof.
+  intros [[p f] r]. unfold warning_eqb. rewrite path_eqb_refl, form_eqb_refl. destruct r; reflexivity.
+Qed.
+Lemma incl_b_of_In : forall ws1 ws2, (forall w, In w ws1 -> In w ws2) -> incl_b warning_eqb ws1 ws2 = true.
+Proof.
+  intros ws1 ws2 H. unfold incl_b. apply forallb_forall. intros w Hw. apply existsb_exists. exists w.
+  split; [apply H; exact Hw | apply warning_eqb_refl].
+Qed.
+
+Lemma in_written : forall ks b c id,
+  In id (written ks b c) <-> exists kv r, In kv ks /\ tag_of kv = Some (b, r, c, id).
+Proof.
+  intros ks b c id. unfold written. rewrite in_map_iff. split.
+  - intros [kv [Hid Hin]]. apply filter_In in Hin. destruct Hin as [Hm Hf]. apply in_members in Hm.
+    destruct Hm as [Hin [r [f [i Ht]]]]. unfold has_form, tag_form in Hf. unfold tag_id in Hid. rewrite Ht in Hf, Hid.
+    apply form_eqb_eq in Hf. subst. eauto.
+  - intros [kv [r [Hin Ht]]]. exists kv. split; [unfold tag_id; rewrite Ht; reflexivity|].
+    apply filter_In. split; [apply in_members; eauto|]. unfold has_form, tag_form. rewrite Ht. apply form_eqb_refl.
+Qed.
+
+Section Final.
+  Variable is_key : str -> bool.
+  Variable cats : rule -> list form.
+  Variable path : list str.
+  Variable ks : list (str * ival).
+  Hypothesis Hnd : NoDup (map fst ks).
+
+  (** the `_other` member and the rest of a group with one rule type: no second `_other` *)
+  Lemma others_no_other : forall b o others,
+    mixed ks b = false -> remove_first_other (grp ks b) = Some (o, others) ->
+    forall m, In m others -> is_other m = false.
+  Proof.
+    intros b o others Hmx Hr m Hin. destruct (is_other m) eqn:Hm; [|reflexivity]. exfalso.
+    destruct (remove_first_other_spec _ _ _ Hr) as [Ho [Hg _]].
+    assert (Hmg : In m (grp ks b)) by (apply Hg; right; exact Hin).
+    assert (Hog : In o (grp ks b)) by (apply Hg; left; reflexivity).
+    pose proof (not_mixed_uniform ks b Hmx m o Hmg Hog) as Hrule.
+    apply in_grp in Hmg. destruct Hmg as [kv1 [r1 [f1 [i1 [I1 [T1 E1]]]]]].
+    apply in_grp in Hog. destruct Hog as [kv2 [r2 [f2 [i2 [I2 [T2 E2]]]]]].
+    subst m o. cbn [m_rule] in Hrule. subst r2. unfold is_other in Hm, Ho. cbn [m_form] in Hm, Ho.
+    apply form_eqb_eq in Hm. apply form_eqb_eq in Ho. subst f1 f2.
+    assert (Hk : fst kv1 = fst kv2) by (unfold tag_of in T1, T2; apply (classify_inj _ _ _ _ _ _ _ _ _ T1 T2)).
+    pose proof (NoDup_fst_unique ks kv1 kv2 Hnd I1 I2 Hk) as Heq. subst kv2. rewrite T1 in T2. inversion T2; subst i2.
+    apply (remove_first_other_notin _ _ _ (NoDup_grp ks b Hnd) Hr). exact Hin.
+  Qed.
+
+  Lemma plural_ok_node : forall b v,
+    mergeable ks b = true -> mixed ks b = false -> plural_node ks b = Some v -> plural_ok ks b (Some v) = true.
+  Proof.
+    intros b v Hm Hmx Hpn. unfold plural_node in Hpn.
+    destruct (remove_first_other (grp ks b)) as [[o others]|] eqn:Hr; [|discriminate]. inversion Hpn; subst v. clear Hpn.
+    destruct (remove_first_other_spec _ _ _ Hr) as [Ho [Hg _]].
+    pose proof (others_no_other b o others Hmx Hr) as Hno.
+    assert (Hog : In o (grp ks b)) by (apply Hg; left; reflexivity).
+    assert (Hoid : In (m_id o) (written ks b Other)).
+    { apply in_grp in Hog. destruct Hog as [kv [r [f [id [Hin [Ht E]]]]]]. subst o. unfold is_other in Ho. cbn [m_form m_id] in *.
+      apply form_eqb_eq in Ho. subst f. apply in_written. eauto. }
+    unfold plural_ok. apply andb_true_iff. split; [apply andb_true_iff; split|].
+    - apply forallb_forall. intros kv Hin. apply in_members in Hin. destruct Hin as [Hin [r [f [id Ht]]]].
+      rewrite (has_rule_tag _ _ _ _ _ _ Ht). apply rule_eqb_eq.
+      assert (Hmg : In (f, fst kv, r, id) (grp ks b)) by (apply in_grp; exists kv, r, f, id; auto).
+      apply (not_mixed_uniform ks b Hmx _ _ Hmg Hog).
+    - apply forallb_forall. intros c _.
+      assert (Hsel : (exists id, In id (written ks b c) /\ select_match (m_id o) (build_forms others []) c = id)
+                     \/ (written ks b c = [] \/ c = Other) /\ select_match (m_id o) (build_forms others []) c = m_id o).
+      { unfold select_match. destruct (fget_build_forms others [] c) as [[m [Hin [Hf Hget]]] | [Hnone Hget]].
+        - left. exists (m_id m). rewrite Hget. split; [|reflexivity].
+          assert (Hmg : In m (grp ks b)) by (apply Hg; right; exact Hin).
+          apply in_grp in Hmg. destruct Hmg as [kv [r [f [id [Hkin [Ht E]]]]]]. subst m. cbn [m_form m_id] in *. subst f.
+          apply in_written. eauto.
+        - right. rewrite Hget. cbn [fget]. split; [|reflexivity].
+          destruct (written ks b c) as [|id rest] eqn:Ew; [left; reflexivity|]. right.
+          assert (Hid : In id (written ks b c)) by (rewrite Ew; left; reflexivity).
+          apply in_written in Hid. destruct Hid as [kv [r [Hkin Ht]]].
+          assert (Hmg : In (c, fst kv, r, id) (grp ks b)) by (apply in_grp; exists kv, r, c, id; auto).
+          apply Hg in Hmg. destruct Hmg as [Heq | Hin].
+          + rewrite <- Heq in Ho. unfold is_other in Ho. cbn [m_form] in Ho. apply form_eqb_eq in Ho. exact Ho.
+          + exfalso. apply (Hnone _ Hin). reflexivity. }
+      destruct Hsel as [[id [Hid Hs]] | [[Hw | Hc] Hs]].
+      + rewrite Hs. destruct (written ks b c) as [|x rest] eqn:Ew; [destruct Hid|].
+        apply existsb_exists. exists id. split; [exact Hid | apply N.eqb_refl].
+      + rewrite Hw, Hs. apply existsb_exists. exists (m_id o). split; [exact Hoid | apply N.eqb_refl].
+      + subst c. rewrite Hs. destruct (written ks b Other) as [|x rest] eqn:Ew; [destruct Hoid|].
+        apply existsb_exists. exists (m_id o). split; [exact Hoid | apply N.eqb_refl].
+    - apply forallb_forall. intros c _. apply N.eqb_eq. apply select_cat_match. apply build_forms_no_other. exact Hno.
+  Qed.
+
+  (** warnings of the model = expected warnings, as sets *)
+  Lemma warns_sound : forall out w,
+    LInv is_key ks (groups_of ks) out ->
+    In w (flat_map (group_warns cats path) (groups_of ks)) -> In w (expected_warnings cats path ks).
+  Proof.
+    intros out w Hinv Hw. apply in_flat_map in Hw. destruct Hw as [[b g] [HinG Hw]].
+    pose proof (groups_content ks b g HinG) as Hg. unfold group_warns in Hw. cbn [fst snd] in Hw.
+    destruct (group_mergeable g) eqn:Hgm; [|destruct Hw].
+    assert (Hm : mergeable ks b = true) by (rewrite <- grp_mergeable, <- Hg; exact Hgm).
+    destruct (remove_first_other g) as [[o others]|] eqn:Hr; [|destruct Hw].
+    assert (HbG : In b (map fst (groups_of ks))) by (apply in_map_iff; exists (b, g); auto).
+    destruct (li_plural _ _ _ _ Hinv b HbG Hm) as [Hmx _].
+    destruct w as [[p f] r]. apply unused_correct in Hw. destruct Hw as [-> [-> [[v Hfv] Hnc]]].
+    apply build_forms_in in Hfv. destruct Hfv as [[m [Hmin Hmf]] | []].
+    rewrite Hg in Hr. destruct (remove_first_other_spec _ _ _ Hr) as [Ho [Hgin _]].
+    assert (Hmg : In m (grp ks b)) by (apply Hgin; right; exact Hmin).
+    assert (Hog : In o (grp ks b)) by (apply Hgin; left; reflexivity).
+    pose proof (not_mixed_uniform ks b Hmx m o Hmg Hog) as Hrule.
+    pose proof (others_no_other b o others Hmx Hr m Hmin) as Hnoth.
+    apply in_grp in Hmg. destruct Hmg as [kv [r' [f' [id [Hkin [Ht E]]]]]]. subst m. cbn [m_form m_rule] in *. subst f'.
+    unfold expected_warnings. apply in_flat_map. exists kv. split; [exact Hkin|]. rewrite Ht, Hm. cbn [andb].
+    unfold is_other in Hnoth. cbn [m_form] in Hnoth. rewrite Hnoth. cbn [negb andb]. rewrite <- Hrule in Hnc.
+    destruct (existsb (form_eqb f) (cats r')) eqn:He; [apply existsb_form in He; contradiction|].
+    cbn [negb]. left. rewrite Hrule. reflexivity.
+  Qed.
+
+  Lemma warns_complete : forall out w,
+    LInv is_key ks (groups_of ks) out ->
+    In w (expected_warnings cats path ks) -> In w (flat_map (group_warns cats path) (groups_of ks)).
+  Proof.
+    intros out w Hinv Hw. unfold expected_warnings in Hw. apply in_flat_map in Hw. destruct Hw as [kv [Hkin Hw]].
+    destruct (tag_of kv) as [[[[b r] f] id]|] eqn:Ht; [|destruct Hw].
+    destruct (mergeable ks b) eqn:Hm; [|destruct Hw]. cbn [andb] in Hw.
+    destruct (form_eqb f Other) eqn:Hfo; [destruct Hw|]. cbn [negb andb] in Hw.
+    destruct (existsb (form_eqb f) (cats r)) eqn:He; [destruct Hw|]. destruct Hw as [<- | []].
+    assert (HbG : In b (map fst (groups_of ks))).
+    { apply groups_bases. intros Hnil. assert (Hk : In kv (members ks b)) by (apply in_members; eauto). rewrite Hnil in Hk. destruct Hk. }
+    destruct (li_plural _ _ _ _ Hinv b HbG Hm) as [Hmx _].
+    apply in_map_iff in HbG. destruct HbG as [[b' g] [Hb HinG]]. cbn [fst] in Hb. subst b'.
+    pose proof (groups_content ks b g HinG) as Hg.
+    apply in_flat_map. exists (b, g). split; [exact HinG|]. unfold group_warns. cbn [fst snd].
+    assert (Hgm : group_mergeable g = true) by (rewrite Hg, grp_mergeable; exact Hm). rewrite Hgm.
+    assert (Hoth : existsb is_other g = true) by (unfold group_mergeable in Hgm; apply andb_true_iff in Hgm; apply Hgm).
+    destruct (remove_first_other_some g Hoth) as [o [others Hr]]. rewrite Hr. rewrite Hg in Hr.
+    destruct (remove_first_other_spec _ _ _ Hr) as [Ho [Hgin _]].
+    assert (Hmg : In (f, fst kv, r, id) (grp ks b)) by (apply in_grp; exists kv, r, f, id; auto).
+    assert (Hog : In o (grp ks b)) by (apply Hgin; left; reflexivity).
+    pose proof (not_mixed_uniform ks b Hmx _ _ Hmg Hog) as Hrule. cbn [m_rule] in Hrule.
+    apply unused_correct. split; [reflexivity|]. split; [exact Hrule|]. split.
+    - apply Hgin in Hmg. destruct Hmg as [Heq | Hin].
+      + rewrite <- Heq in Ho. unfold is_other in Ho. cbn [m_form] in Ho. congruence.
+      + destruct (fget_build_forms others [] f) as [[m [Hmin [Hmf Hget]]] | [Hnone _]].
+        * exists (m_id m). apply fget_in. exact Hget.
+        * exfalso. apply (Hnone _ Hin). reflexivity.
+    - rewrite <- Hrule. intros Hc. apply existsb_form in Hc. congruence.
+  Qed.
+End Final.
+
+(** * The level theorem *)
+
+Lemma merge_level_eq : forall is_key cats path ks,
+  merge_level is_key cats path ks = loop2 is_key cats path (groups_of ks) (keys0_of ks) [].
+Proof. intros. unfold merge_level, groups_of, keys0_of. destruct (fold_left step1 ks ([], [])). reflexivity. Qed.
+
+Lemma merge_level_outcome : forall is_key cats path ks, NoDup (map fst ks) ->
+  outcome is_key cats path ks [] (groups_of ks) [] (merge_level is_key cats path ks).
+Proof.
+  intros is_key cats path ks Hnd. rewrite merge_level_eq.
+  apply (loop2_correct is_key cats path ks Hnd (groups_of ks) [] (keys0_of ks) [] eq_refl).
+  apply linv_start. exact Hnd.
+Qed.
+
+Lemma settled_all : forall ks kv, In kv ks -> settled (groups_of ks) kv.
+Proof.
+  intros ks kv Hin. unfold settled. destruct (tag_of kv) as [[[[b r] f] id]|] eqn:Ht; [|exact I].
+  apply groups_bases. intros Hnil. assert (Hk : In kv (members ks b)) by (apply in_members; eauto). rewrite Hnil in Hk. destruct Hk.
+Qed.
+
+Theorem spec_C05_holds : forall is_key cats path ks, NoDup (map fst ks) ->
+  spec_C05 is_key cats path ks (merge_level is_key cats path ks) = true.
+Proof.
+  intros is_key cats path ks Hnd. pose proof (merge_level_outcome is_key cats path ks Hnd) as H.
+  destruct (merge_level is_key cats path ks) as [out ws|[|] p|]; cbn [outcome app] in H.
+  - destruct H as [Hinv Hws]. subst ws. unfold spec_C05.
+    assert (HbG : forall b, mergeable ks b = true -> In b (map fst (groups_of ks))).
+    { intros b Hm. apply groups_bases. apply mergeable_members. exact Hm. }
+    repeat (apply andb_true_iff; split).
+    + apply forallb_forall. intros b Hb. apply in_merged_bases in Hb.
+      destruct (li_plural _ _ _ _ Hinv b (HbG b Hb) Hb) as [Hmx [Hco _]]. rewrite Hmx, Hco. reflexivity.
+    + apply ssorted_sorted_strict. apply (li_sorted _ _ _ _ Hinv).
+    + apply forallb_forall. intros k Hk. apply in_keys_mget in Hk. destruct Hk as [v Hget].
+      apply orb_true_iff.
+      destruct (li_sound _ _ _ _ Hinv k v Hget) as [[kv [Hin [Hk [Hv [Hkm Hst]]]]] | [Hin [Hm Hpn]]].
+      * left. apply mem_str_In. apply in_map_iff. exists kv. split; [exact Hk | apply in_remaining; auto].
+      * right. apply mem_str_In. apply in_merged_bases. exact Hm.
+    + apply forallb_forall. intros kv Hkv. apply in_remaining in Hkv. destruct Hkv as [Hin Hkm].
+      rewrite (li_complete _ _ _ _ Hinv kv Hin Hkm (settled_all ks kv Hin)).
+      destruct (snd kv); cbn [ival_eqb]; apply N.eqb_refl.
+    + apply forallb_forall. intros b Hb. apply in_merged_bases in Hb.
+      destruct (li_plural _ _ _ _ Hinv b (HbG b Hb) Hb) as [Hmx [_ [_ [v [Hpn Hget]]]]]. rewrite Hget.
+      apply (plural_ok_node ks Hnd b v Hb Hmx Hpn).
+    + apply incl_b_of_In. intros w Hw. apply (warns_sound is_key cats path ks Hnd out w Hinv Hw).
+    + apply incl_b_of_In. intros w Hw. apply (warns_complete is_key cats path ks out w Hinv Hw).
+  - destruct H as [b [-> [Hm Hmx]]]. unfold spec_C05. rewrite split_last_snoc, path_eqb_refl, Hm, Hmx. reflexivity.
+  - destruct H as [b [-> [Hm Hco]]]. unfold spec_C05. rewrite split_last_snoc, path_eqb_refl, Hm, Hco. reflexivity.
+  - destruct H as [b [Hm Hk]]. unfold spec_C05. apply existsb_exists. exists b. split; [apply in_merged_bases; exact Hm|].
+    rewrite Hk. reflexivity.
+Qed.
+
+(** * Property-level corollaries *)
+
+Lemma merge_keys_level : forall is_key cats path ks out ws, NoDup (map fst ks) ->
+  merge_level is_key cats path ks = ROk out ws ->
+  forall k, In k (map fst out) <-> In k (map fst (remaining ks)) \/ In k (merged_bases ks).
+Proof.
+  intros is_key cats path ks out ws Hnd Hr k. pose proof (merge_level_outcome is_key cats path ks Hnd) as H.
+  rewrite Hr in H. cbn [outcome app] in H. destruct H as [Hinv _]. split.
+  - intros Hk. apply in_keys_mget in Hk. destruct Hk as [v Hget].
+    destruct (li_sound _ _ _ _ Hinv k v Hget) as [[kv [Hin [Hk [Hv [Hkm Hst]]]]] | [Hin [Hm Hpn]]].
+    + left. apply in_map_iff. exists kv. split; [exact Hk | apply in_remaining; auto].
+    + right. apply in_merged_bases. exact Hm.
+  - intros [Hk | Hk].
+    + apply in_map_iff in Hk. destruct Hk as [kv [Hk Hin]]. apply in_remaining in Hin. destruct Hin as [Hin Hkm].
+      pose proof (li_complete _ _ _ _ Hinv kv Hin Hkm (settled_all ks kv Hin)) as Hget. rewrite Hk in Hget.
+      apply mget_in in Hget. apply in_map_iff. exists (k, Kept (snd kv)). split; [reflexivity | exact Hget].
+    + apply in_merged_bases in Hk.
+      assert (HbG : In k (map fst (groups_of ks))) by (apply groups_bases; apply mergeable_members; exact Hk).
+      destruct (li_plural _ _ _ _ Hinv k HbG Hk) as [_ [_ [_ [v [_ Hget]]]]].
+      apply mget_in in Hget. apply in_map_iff. exists (k, v). split; [reflexivity | exact Hget].
+Qed.
+
+Lemma in_all_forms : forall c, In c all_forms.
+Proof. intros c. unfold all_forms. destruct c; cbn; tauto. Qed.
+
+Lemma select_level :
+  forall (locale operand : Type) (cat : locale -> rule -> operand -> form) is_key cats path ks out ws b,
+    NoDup (map fst ks) -> merge_level is_key cats path ks = ROk out ws -> mergeable ks b = true ->
+    exists r other forms,
+      mget b out = Some (PluralV r other forms) /\
+      (forall kv, In kv (members ks b) -> has_rule r kv = true) /\
+      forall (l : locale) (n : operand),
+        let c := cat l r n in
+        select_cat other forms c = select_match other forms c /\
+        match written ks b c with
+        | [] => In (select_match other forms c) (written ks b Other)
+        | ids => In (select_match other forms c) ids
+        end.
+Proof.
+  intros locale operand cat is_key cats path ks out ws b Hnd Hr Hm.
+  pose proof (merge_level_outcome is_key cats path ks Hnd) as H. rewrite Hr in H. cbn [outcome app] in H. destruct H as [Hinv _].
+  assert (HbG : In b (map fst (groups_of ks))) by (apply groups_bases; apply mergeable_members; exact Hm).
+  destruct (li_plural _ _ _ _ Hinv b HbG Hm) as [Hmx [_ [_ [v [Hpn Hget]]]]].
+  pose proof (plural_ok_node ks Hnd b v Hm Hmx Hpn) as Hok.
+  unfold plural_node in Hpn. destruct (remove_first_other (grp ks b)) as [[o others]|]; [|discriminate]. inversion Hpn; subst v.
+  exists (m_rule o), (m_id o), (build_forms others []). split; [exact Hget|].
+  unfold plural_ok in Hok. apply andb_true_iff in Hok. destruct Hok as [Hok H3]. apply andb_true_iff in Hok. destruct Hok as [H1 H2].
+  split.
+  - intros kv Hin. rewrite forallb_forall in H1. apply H1. exact Hin.
+  - intros l n c. rewrite forallb_forall in H2, H3. specialize (H2 c (in_all_forms c)). specialize (H3 c (in_all_forms c)).
+    split; [apply N.eqb_eq; exact H3|].
+    destruct (written ks b c) as [|x rest].
+    + apply existsb_exists in H2. destruct H2 as [y [Hy Heq]]. apply N.eqb_eq in Heq. rewrite Heq. exact Hy.
+    + apply existsb_exists in H2. destruct H2 as [y [Hy Heq]]. apply N.eqb_eq in Heq. rewrite Heq. exact Hy.
+Qed.
+
+Lemma conflicts_level : forall is_key cats path ks, NoDup (map fst ks) ->
+  (forall b, mergeable ks b = true -> is_key b = true) ->
+  ((exists b, mergeable ks b = true /\ (mixed ks b = true \/ collides ks b = true)) <->
+   (exists k p, merge_level is_key cats path ks = RErr k p)) /\
+  (forall k p, merge_level is_key cats path ks = RErr k p ->
+     exists b, p = path ++ [b] /\ mergeable ks b = true /\
+               match k with EConflict => mixed ks b = true | ECollide => collides ks b = true end).
+Proof.
+  intros is_key cats path ks Hnd Hkeys. pose proof (merge_level_outcome is_key cats path ks Hnd) as H.
+  destruct (merge_level is_key cats path ks) as [out ws|k p|] eqn:Hr; cbn [outcome app] in H.
+  - destruct H as [Hinv _]. split.
+    + split.
+      * intros [b [Hm Hbad]]. exfalso.
+        assert (HbG : In b (map fst (groups_of ks))) by (apply groups_bases; apply mergeable_members; exact Hm).
+        destruct (li_plural _ _ _ _ Hinv b HbG Hm) as [Hmx [Hco _]]. destruct Hbad; congruence.
+      * intros [k [p Hk]]. discriminate.
+    + intros k p Hk. discriminate.
+  - split.
+    + split; [intros _; eauto|]. intros _. destruct k; destruct H as [b [_ [Hm Hbad]]]; exists b; auto.
+    + intros k' p' Hk. inversion Hk; subst k' p'. destruct k; destruct H as [b [Hp [Hm Hbad]]]; exists b; auto.
+  - destruct H as [b [Hm Hk]]. rewrite (Hkeys b Hm) in Hk. discriminate.
+Qed.
+
+Lemma unused_level : forall is_key cats path ks out ws, NoDup (map fst ks) ->
+  merge_level is_key cats path ks = ROk out ws ->
+  forall w, In w ws <-> In w (expected_warnings cats path ks).
+Proof.
+  intros is_key cats path ks out ws Hnd Hr w. pose proof (merge_level_outcome is_key cats path ks Hnd) as H.
+  rewrite Hr in H. cbn [outcome app] in H. destruct H as [Hinv ->]. split.
+  - apply (warns_sound is_key cats path ks Hnd out w Hinv).
+  - apply (warns_complete is_key cats path ks out w Hinv).
+Qed.
+
+(** cross-locale clause, outside the known failing class *)
+Lemma forallb2_map_r : forall (A B : Type) (f : A -> B -> bool) (g : A -> B) l,
+  forallb2 f l (map g l) = forallb (fun x => f x (g x)) l.
+Proof. intros. induction l as [|x r IH]; cbn [map forallb2 forallb]; [reflexivity|]. rewrite IH. reflexivity. Qed.
+
+Lemma cross_level : forall is_key cats levels, lone_other levels = false ->
+  (forall ks, In ks levels -> NoDup (map fst ks) /\ exists out ws, merge_level is_key cats [] ks = ROk out ws) ->
+  spec_cross levels (map (fun ks => match merge_level is_key cats [] ks with ROk out _ => out | _ => [] end) levels) = true.
+Proof.
+  intros is_key cats levels Hlone Hall. unfold spec_cross. rewrite forallb2_map_r. apply forallb_forall. intros ks Hks.
+  destruct (Hall ks Hks) as [Hnd [out [ws Hr]]]. rewrite Hr. apply forallb_forall. intros b Hb.
+  destruct (existsb (has_form Other) (members ks b)) eqn:Hoth; [|reflexivity]. cbn [negb orb].
+  assert (Hm : mergeable ks b = true).
+  { unfold mergeable. rewrite Hoth, andb_true_r.
+    destruct (length (members ks b)) as [|[|n]] eqn:El; [| |reflexivity].
+    - destruct (members ks b); [cbn in Hoth; discriminate | cbn in El; discriminate].
+    - exfalso. unfold lone_other in Hlone.
+      assert (Ht : existsb (fun ks0 => existsb (fun b0 => Nat.eqb (length (members ks0 b0)) 1 && existsb (has_form Other) (members ks0 b0))
+                                              (all_merged_bases levels)) levels = true); [|congruence].
+      apply existsb_exists. exists ks. split; [exact Hks|]. apply existsb_exists. exists b. split; [exact Hb|].
+      rewrite El, Hoth. reflexivity. }
+  pose proof (merge_level_outcome is_key cats [] ks Hnd) as H. rewrite Hr in H. cbn [outcome app] in H. destruct H as [Hinv _].
+  assert (HbG : In b (map fst (groups_of ks))) by (apply groups_bases; apply mergeable_members; exact Hm).
+  destruct (li_plural _ _ _ _ Hinv b HbG Hm) as [_ [_ [_ [v [Hpn Hget]]]]].
+  unfold is_plural_at. rewrite Hget. unfold plural_node in Hpn.
+  destruct (remove_first_other (grp ks b)) as [[o others]|]; [|discriminate]. inversion Hpn. reflexivity.
+Qed.
+
+(** * The second pass (lone `_other`) and the whole-project theorem *)
+
+Section LoneProofs.
+  Variable is_key : str -> bool.
+  Variable ext : str -> bool.
+
+  Definition cand_list (kv : str * oval) : list (str * rule * N) :=
+    match lone_candidate is_key ext kv with Some c => [c] | None => [] end.
+
+  Lemma lone_split_lone : forall keys R L,
+    snd (fold_left (lone_step is_key ext) keys (R, L)) = L ++ flat_map cand_list keys.
+  Proof.
+    induction keys as [|kv r IH]; intros R L; cbn [fold_left flat_map]; [rewrite app_nil_r; reflexivity|].
+    unfold lone_step at 2, cand_list at 1. destruct (lone_candidate is_key ext kv) as [c|]; cbn [fst snd].
+    - rewrite IH, <- app_assoc. reflexivity.
+    - rewrite IH. reflexivity.
+  Qed.
+
+  Lemma lone_split_rest : forall keys R L k,
+    mget k (fst (fold_left (lone_step is_key ext) keys (R, L))) =
+    match find (fun kv => str_eqb k (fst kv) && match lone_candidate is_key ext kv with None => true | Some _ => false end) (rev keys) with
+    | Some kv => Some (snd kv)
+    | None => mget k R
+    end.
+  Proof.
+    induction keys as [|kv r IH]; intros R L k; cbn [fold_left rev]; [reflexivity|].
+    unfold lone_step at 2. rewrite find_app_or. destruct (lone_candidate is_key ext kv) as [c|] eqn:Hc; cbn [fst snd].
+    - rewrite IH. destruct (find _ (rev r)); [reflexivity|]. cbn [find]. rewrite Hc, andb_false_r. reflexivity.
+    - rewrite IH. destruct (find _ (rev r)); [reflexivity|]. cbn [find]. rewrite Hc, andb_true_r, mget_minsert.
+      destruct (str_eqb k (fst kv)); reflexivity.
+  Qed.
+
+  Lemma lone_insert_ok : forall path lone keys out ws,
+    lone_insert path lone keys = ROk out ws ->
+    (forall k v, mget k keys = Some v -> mget k out = Some v) /\
+    (forall b r id, In (b, r, id) lone -> is_plural_at b out = true).
+  Proof.
+    induction lone as [|[[b r] id] rest IH]; intros keys out ws H; cbn [lone_insert] in H.
+    - inversion H; subst. split; [auto | intros b r id []].
+    - destruct (mmem b keys) eqn:Hm; [discriminate|]. destruct (IH _ _ _ H) as [Hkeep Hpl].
+      assert (Hnone : mget b keys = None) by (unfold mmem in Hm; destruct (mget b keys); [discriminate | reflexivity]).
+      split.
+      + intros k v Hk. apply Hkeep. rewrite mget_minsert. destruct (str_eqb k b) eqn:E; [|exact Hk].
+        apply str_eqb_eq in E. subst k. congruence.
+      + intros b' r' id' [Heq | Hin].
+        * inversion Heq; subst b' r' id'. unfold is_plural_at. rewrite (Hkeep b (PluralV r id [])); [reflexivity|].
+          rewrite mget_minsert, str_eqb_refl. reflexivity.
+        * apply (Hpl b' r' id' Hin).
+  Qed.
+
+  (** what the second pass guarantees for one locale *)
+  Lemma lone_pass_ok : forall path keys out ws,
+    ssorted keys -> lone_pass is_key ext path keys = ROk out ws ->
+    (forall k v, In (k, v) keys -> lone_candidate is_key ext (k, v) = None -> mget k out = Some v) /\
+    (forall kv b r id, In kv keys -> lone_candidate is_key ext kv = Some (b, r, id) -> is_plural_at b out = true).
+  Proof.
+    intros path keys out ws Hs H. unfold lone_pass in H.
+    destruct (fold_left (lone_step is_key ext) keys ([], [])) as [rest lone] eqn:Hf.
+    assert (Hrest : rest = fst (fold_left (lone_step is_key ext) keys ([], []))) by (rewrite Hf; reflexivity).
+    assert (Hlone : lone = snd (fold_left (lone_step is_key ext) keys ([], []))) by (rewrite Hf; reflexivity).
+    destruct (lone_insert_ok _ _ _ _ _ H) as [Hkeep Hpl]. split.
+    - intros k v Hin Hc. apply Hkeep. rewrite Hrest, lone_split_rest. cbn [mget].
+      destruct (find _ (rev keys)) as [kv'|] eqn:Hfd.
+      + apply find_some in Hfd. destruct Hfd as [Hin' Hp]. apply andb_true_iff in Hp. destruct Hp as [Hk _].
+        apply str_eqb_eq in Hk. apply in_rev in Hin'. destruct kv' as [k' v']. cbn [fst snd] in *. subst k'.
+        pose proof (in_mget _ _ _ Hs Hin) as G1. pose proof (in_mget _ _ _ Hs Hin') as G2. congruence.
+      + exfalso. assert (Hr : In (k, v) (rev keys)) by (apply in_rev; rewrite rev_involutive; exact Hin).
+        pose proof (find_none _ _ Hfd _ Hr) as Hn. cbn [fst] in Hn. rewrite str_eqb_refl, Hc in Hn. discriminate.
+    - intros kv b r id Hin Hc. apply (Hpl b r id). rewrite Hlone, lone_split_lone. cbn [app].
+      apply in_flat_map. exists kv. split; [exact Hin|]. unfold cand_list. rewrite Hc. left. reflexivity.
+  Qed.
+End LoneProofs.
+
+Lemma seq_res_ok : forall (A : Type) (f : A -> res) l outs,
+  seq_res f l = POk outs -> Forall2 (fun x out => exists ws, f x = ROk out ws) l outs.
+Proof.
+  induction l as [|x r IH]; intros outs H; cbn [seq_res] in H.
+  - inversion H. constructor.
+  - destruct (f x) as [out ws|k p|] eqn:Hf; try discriminate.
+    destruct (seq_res f r) as [outs'|k p|] eqn:Hr; try discriminate. inversion H; subst.
+    constructor; [exists ws; exact Hf | apply IH; reflexivity].
+Qed.
+
+Lemma forallb2_Forall2 : forall (A B : Type) (f : A -> B -> bool) l1 l2,
+  Forall2 (fun a b => f a b = true) l1 l2 -> forallb2 f l1 l2 = true.
+Proof. intros A B f l1 l2 H. induction H; cbn [forallb2]; [reflexivity|]. rewrite H, IHForall2. reflexivity. Qed.
+
+Lemma Forall2_compose : forall (A B C : Type) (P : A -> B -> Prop) (Q : B -> C -> Prop) l1 l2 l3,
+  Forall2 P l1 l2 -> Forall2 Q l2 l3 -> Forall2 (fun a c => exists b, P a b /\ Q b c) l1 l3.
+Proof.
+  intros A B C P Q l1 l2 l3 H. revert l3. induction H; intros l3 H2; inversion H2; subst; constructor; eauto.
+Qed.
+
+Lemma Forall2_in_l : forall (A B : Type) (P : A -> B -> Prop) l1 l2 a,
+  Forall2 P l1 l2 -> In a l1 -> exists b, In b l2 /\ P a b.
+Proof.
+  intros A B P l1 l2 a H. induction H; intros Hin; [destruct Hin|]. destruct Hin as [<- | Hin].
+  - eexists. split; [left; reflexivity | eassumption].
+  - destruct (IHForall2 Hin) as [b [Hb Hp]]. exists b. split; [right; exact Hb | exact Hp].
+Qed.
+
+Lemma Forall2_impl_in : forall (A B : Type) (P Q : A -> B -> Prop) l1 l2,
+  Forall2 P l1 l2 -> (forall a b, In a l1 -> P a b -> Q a b) -> Forall2 Q l1 l2.
+Proof.
+  intros A B P Q l1 l2 H. induction H; intros Himp; constructor.
+  - apply Himp; [left; reflexivity | assumption].
+  - apply IHForall2. intros a b Hin Hp. apply Himp; [right; exact Hin | exact Hp].
+Qed.
+
+Lemma in_plural_bases : forall b out r o f, In (b, PluralV r o f) out -> In b (plural_bases out).
+Proof.
+  intros b out r o f H. unfold plural_bases. apply in_flat_map. exists (b, PluralV r o f). split; [exact H | left; reflexivity].
+Qed.
+
+Lemma plural_node_shape : forall ks b v, plural_node ks b = Some v -> exists r o f, v = PluralV r o f.
+Proof.
+  intros ks b v H. unfold plural_node in H. destruct (remove_first_other (grp ks b)) as [[o others]|]; [|discriminate].
+  inversion H. eauto.
+Qed.
+
+(** C05_cross: after the whole-project merging, every locale that writes the `_other` form of a key which some locale
+    merges has that key as a plural — without exception *)
+Theorem project_cross : forall is_key cats levels outs,
+  (forall ks, In ks levels -> NoDup (map fst ks)) ->
+  merge_project is_key cats levels = POk outs -> spec_cross levels outs = true.
+Proof.
+  intros is_key cats levels outs Hnd H. unfold merge_project in H.
+  destruct (seq_res (merge_level is_key cats []) levels) as [outs1|k p|] eqn:H1; try discriminate.
+  pose proof (seq_res_ok _ _ _ _ H1) as F1.
+  (* facts about the first pass, for any level *)
+  assert (Hlevel : forall ks out1, In ks levels -> (exists ws, merge_level is_key cats [] ks = ROk out1 ws) ->
+                    LInv is_key ks (groups_of ks) out1).
+  { intros ks out1 Hin [ws Hr]. pose proof (merge_level_outcome is_key cats [] ks (Hnd ks Hin)) as Ho.
+    rewrite Hr in Ho. cbn [outcome app] in Ho. apply Ho. }
+  assert (Hplural : forall ks out1 b, In ks levels -> (exists ws, merge_level is_key cats [] ks = ROk out1 ws) ->
+                     mergeable ks b = true -> is_key b = true /\ is_plural_at b out1 = true /\ In b (plural_bases out1)).
+  { intros ks out1 b Hin Hr Hm. pose proof (Hlevel ks out1 Hin Hr) as Hinv.
+    assert (HbG : In b (map fst (groups_of ks))) by (apply groups_bases; apply mergeable_members; exact Hm).
+    destruct (li_plural _ _ _ _ Hinv b HbG Hm) as [_ [_ [Hik [v [Hpn Hget]]]]].
+    destruct (plural_node_shape _ _ _ Hpn) as [r [o [f ->]]]. split; [exact Hik|]. split.
+    - unfold is_plural_at. rewrite Hget. reflexivity.
+    - apply (in_plural_bases b out1 r o f). apply mget_in. exact Hget. }
+  unfold spec_cross.
+  destruct (forallb (fun out => match plural_bases out with [] => true | _ :: _ => false end) outs1) eqn:Hnone.
+  - (* no plural anywhere: nothing is merged in any locale *)
+    inversion H; subst outs. apply forallb2_Forall2.
+    assert (Hempty : all_merged_bases levels = []).
+    { destruct (all_merged_bases levels) as [|b rest] eqn:E; [reflexivity|]. exfalso.
+      assert (Hb : In b (all_merged_bases levels)) by (rewrite E; left; reflexivity).
+      unfold all_merged_bases in Hb. apply in_flat_map in Hb. destruct Hb as [ks [Hks Hb]]. apply in_merged_bases in Hb.
+      destruct (Forall2_in_l _ _ _ _ _ _ F1 Hks) as [out1 [Hout Hr]].
+      destruct (Hplural ks out1 b Hks Hr Hb) as [_ [_ Hpb]].
+      rewrite forallb_forall in Hnone. specialize (Hnone out1 Hout). destruct (plural_bases out1); [destruct Hpb | discriminate]. }
+    rewrite Hempty. clear -F1. induction F1; constructor; [reflexivity | assumption].
+  - (* second pass *)
+    set (ext := fun b => existsb (fun out => mem_str b (plural_bases out)) outs1) in *.
+    pose proof (seq_res_ok _ _ _ _ H) as F2.
+    pose proof (Forall2_compose _ _ _ _ _ _ _ _ F1 F2) as F12. apply forallb2_Forall2.
+    assert (Hext : forall b, In b (all_merged_bases levels) -> is_key b = true /\ ext b = true).
+    { intros b Hb. unfold all_merged_bases in Hb. apply in_flat_map in Hb. destruct Hb as [ks [Hks Hb]]. apply in_merged_bases in Hb.
+      destruct (Forall2_in_l _ _ _ _ _ _ F1 Hks) as [out1 [Hout Hr]].
+      destruct (Hplural ks out1 b Hks Hr Hb) as [Hik [_ Hpb]]. split; [exact Hik|].
+      unfold ext. apply existsb_exists. exists out1. split; [exact Hout | apply mem_str_In; exact Hpb]. }
+    apply (Forall2_impl_in _ _ _ _ _ _ F12). intros ks out2 Hks [out1 [Hr1 [ws2 Hr2]]].
+    pose proof (Hlevel ks out1 Hks Hr1) as Hinv.
+    destruct (lone_pass_ok is_key ext [] out1 out2 ws2 (li_sorted _ _ _ _ Hinv) Hr2) as [Hkeep Hlone].
+    apply forallb_forall. intros b Hb. destruct (Hext b Hb) as [Hik Hex].
+    destruct (existsb (has_form Other) (members ks b)) eqn:Hoth; [|reflexivity]. cbn [negb orb].
+    destruct (mergeable ks b) eqn:Hm.
+    + (* merged by the first pass, kept by the second *)
+      destruct (Hplural ks out1 b Hks Hr1 Hm) as [_ [Hpl _]]. unfold is_plural_at in *.
+      destruct (mget b out1) as [v|] eqn:Hget; [|discriminate]. destruct v as [iv|r o f]; [discriminate|].
+      rewrite (Hkeep b (PluralV r o f) (mget_in _ _ _ Hget) eq_refl). reflexivity.
+    + (* a lone `_other`: turned into a plural by the second pass *)
+      apply existsb_exists in Hoth. destruct Hoth as [kv [Hmem Hform]]. apply in_members in Hmem.
+      destruct Hmem as [Hkin [r [f [id Ht]]]]. unfold has_form, tag_form in Hform. rewrite Ht in Hform.
+      apply form_eqb_eq in Hform. subst f.
+      assert (Hkm : kv_merged ks kv = false) by (rewrite (kv_merged_tag _ _ _ _ _ _ Ht); exact Hm).
+      pose proof (li_complete _ _ _ _ Hinv kv Hkin Hkm (settled_all ks kv Hkin)) as Hget.
+      apply mget_in in Hget. pose proof (tag_leaf _ _ _ _ _ Ht) as Hleaf. rewrite Hleaf in Hget.
+      apply (Hlone (fst kv, Kept (Leaf id)) b r id Hget).
+      unfold lone_candidate. cbn [fst snd]. unfold tag_of in Ht. rewrite Hleaf in Ht. rewrite Ht, Hik, Hex. reflexivity.
+Qed.
